@@ -34,8 +34,9 @@ Theorem C09_preserve_partial :
 Proof. exact preserve_top. Qed.
 Print Assumptions C09_preserve_partial.
 
-(* the same for straight-line method bodies (expression statements, assignments, return): the counter of the
-   temporaries runs through the statements as NameConverter's does *)
+(* FULL STATEMENT: the same for every method body.  PROVED for straight-line bodies (expression statements, assignments
+   to plain identifiers, return) all of whose expressions are in the domain above: the counter of the temporaries runs
+   through the statements as NameConverter's does; control flow, loops, try/finally, nested def: behaviour run only. *)
 Theorem C09_preserve_body_partial :
   forall (W : Type) (p : rwp) typeof tbl callv binop getattr getitem truthy fmt ugl mself (b : list stmt),
     forallb (dom_stmt p) b = true ->
@@ -83,7 +84,9 @@ Theorem C09_footprint :
 Proof. exact eval_fp. Qed.
 Print Assumptions C09_footprint.
 
-(* in the domain the rewriter never raises UsageError, and what it produces is still valid Python *)
+(* FULL STATEMENT (false: C09_accept_refuted, C09_callnext_star_refuted): every syntactically valid placement of a
+   recurse / call_next call is accepted.  PROVED: for every valid expression in [dom] with no call site inside a
+   comprehension iterable, the rewriter does not raise UsageError and what it produces is still valid Python. *)
 Theorem C09_accept_partial : forall p e k, dom p e = true -> valid e = true -> site_in_iter p e = false ->
   usage_err p e = false /\ valid (fst (rw p k e)) = true.
 Proof. exact accept_top. Qed.
